@@ -299,3 +299,36 @@ Fixpoint trace_eqb (a b : list dec) : bool :=
   | x :: a', y :: b' => dec_eqb x y && trace_eqb a' b'
   | _, _ => false
   end.
+
+(* ------------------------------------------------------------------------------------------------------------ *)
+(* round 6: marks per played waveform of a Tabor table state, read from the recorded positions only (this is what S4
+   speaks about: "marked as changeable ... compiled for an instrument") *)
+Definition recorded_in (ps : list tpos) (p : tpos) : bool := existsb (fun x => tpos_eqb x p) ps.
+
+Definition table_marks (adv : list (Z * nat)) (lens : list nat) (ps : list tpos) : list bool :=
+  flat_map (fun a => match nth_error adv a with
+                     | Some (_, S k) => match nth_error lens k with
+                                        | Some n => map (fun q => recorded_in ps (PAdv a) || recorded_in ps (PSeqPos a q))
+                                                        (seq 0 n)
+                                        | None => []
+                                        end
+                     | _ => []
+                     end) (seq 0 (length adv)).
+
+Definition tstate_marks (st : tstate) : list bool :=
+  table_marks (t_adv st) (map (@length tent) (t_tabs st)) (map fst (t_pos st)).
+
+(* the same per waveform of the sequence tables: the table's count or the waveform's count is volatile *)
+Definition tabs_marks (tabs : list prog) : list bool :=
+  flat_map (fun tl => map (fun c => is_vol (rep_of tl) || is_vol (rep_of c)) (kids tl)) tabs.
+
+
+(* every sequence of updates on a Tabor state *)
+Definition update_tabor_all (ups : list (list (name * Z))) (st : tstate) : tstate :=
+  fold_left (fun s us => fst (update_tabor us s)) ups st.
+
+
+(* two states with the same observable tables and the same recorded positions stay so under an update, and report
+   the same modifications *)
+Definition same_obs (s1 s2 : tstate) : Prop := tab_view s1 = tab_view s2 /\ t_pos s1 = t_pos s2.
+
